@@ -428,8 +428,8 @@ def run(ctx):
     t0 = time.time()
     rng = ctx.rng
     # ---- H-tie: exact correspondences
-    n_pipe = 150 if ctx.quick else 2000
-    n_load = 150 if ctx.quick else 2000
+    n_pipe = 120 if ctx.quick else 2000
+    n_load = 120 if ctx.quick else 2000
     pipe_specs = [gen_pipe_spec(rng) for _ in range(n_pipe)]
     load_specs = [gen_load_spec(rng) for _ in range(n_load)]
     for s in pipe_specs:
